@@ -28,6 +28,8 @@ func init() {
 			{"C02.sync", "worker hand-over only on equal start and size; null skip-ahead only inside a proven null run; Advance matches the emitted null chunks", 3, c02Sync},
 			{"C02.order", "chunk lists are assembled in worker order / job order", 3, c02Order},
 			{"C02.worker-errors", "a failed chunker call always ends the chunking worker with its err field set", 1, c02WorkerErrors},
+			{"C02.scan-needs-room", "the boundary scan of the chunker runs only where min is below the limit (no max+1 chunks for min == max)", 1, c02MinBelowLimit},
+			{"C02.skip-clears-eof", "a chunking worker that is skipped does not end the index early", 1, c02SkipClearsEOF},
 			{"C02.null-chunk-consistent", "the null chunk's ID is the digest of exactly its Data, a buffer of its own", 2, func(c *Ctx) { c.nullChunkConsistent() }},
 		},
 	})
@@ -743,5 +745,88 @@ func c02WorkerErrors(c *Ctx) {
 		c.bad("pChunker.start:errors-recorded", fn.Pos(), "%s", bad[0])
 	default:
 		c.ok("pChunker.start:errors-recorded", fn.Pos(), "%d fallible chunker call(s); every failure ends the worker with err set", len(sites))
+	}
+}
+
+// c02MinBelowLimit: the boundary scan of Chunker.Next starts at pos = min, looks at one byte,
+// advances, and only then compares pos with the limit m (max, or what is left).  With min == m
+// the first test is made at m+1: every chunk is one byte longer than max and the index written
+// for it cannot be read back.  The scan (the window initialisation buf[min-48:min] that opens it)
+// is reached only behind the min < m edge.
+func c02MinBelowLimit(c *Ctx) {
+	fn := c.mustFn("Chunker.Next")
+	if fn == nil {
+		return
+	}
+	isMin := func(v ssa.Value) bool {
+		return onlyOrigins(v, func(o string) bool { return o == "field:Chunker.min" })
+	}
+	isLimit := func(v ssa.Value) bool {
+		phi, ok := v.(*ssa.Phi)
+		if !ok {
+			return false
+		}
+		hasMax := false
+		for _, e := range phi.Edges {
+			if hasOrigin(e, func(o string) bool { return o == "field:Chunker.max" }) {
+				hasMax = true
+			}
+		}
+		return hasMax
+	}
+	n := 0
+	instrs(fn, func(_ *ssa.BasicBlock, _ int, ins ssa.Instruction) {
+		sl, ok := ins.(*ssa.Slice)
+		if !ok || ins.Parent() != fn || sl.High == nil || !isMin(sl.High) || !hasOrigin(sl.X, func(o string) bool { return o == "field:Chunker.buf" }) {
+			return
+		}
+		n++
+		okG, _ := guarded(fn, sl, relAcc(token.LSS, isMin, isLimit))
+		c.verdict(okG, "Chunker.Next:scan-needs-room", sl.Pos(), "the boundary scan starts only where min < limit",
+			"the boundary scan is entered although min may equal the limit (min == max): it looks at one more byte before it tests the size, every chunk comes out max+1 bytes long and the index made from them is refused by IndexFromReader")
+	})
+	if n == 0 {
+		c.bad("Chunker.Next:scan-needs-room", fn.Pos(), "the hash window initialisation buf[min-window:min] was not found")
+	}
+}
+
+// c02SkipClearsEOF: a chunking worker that finds the next worker stopped with an empty bucket
+// skips it (c.next = c.next.next).  IndexFromFile walks the workers in order and stops at the
+// first whose eof flag is set; a skipped worker that had reached the end of the stream would end
+// the index before the chunks of the worker behind it (files ending in a run of zeros: the
+// null-chunk skip-ahead drains the next bucket).  The skip clears the flag of the worker it
+// skips, in the same block.
+func c02SkipClearsEOF(c *Ctx) {
+	fn := c.mustFn("pChunker.start")
+	if fn == nil {
+		return
+	}
+	n := 0
+	instrs(fn, func(b *ssa.BasicBlock, i int, ins ssa.Instruction) {
+		st, ok := ins.(*ssa.Store)
+		if !ok || ins.Parent() != fn {
+			return
+		}
+		fa, ok := st.Addr.(*ssa.FieldAddr)
+		if !ok || fieldOf(fa) != "pChunker.next" || !hasOrigin(st.Val, func(o string) bool { return o == "field:pChunker.next" }) {
+			return
+		}
+		n++
+		cleared := false
+		for j := 0; j < i; j++ {
+			if s2, ok := b.Instrs[j].(*ssa.Store); ok {
+				if f2, ok := s2.Addr.(*ssa.FieldAddr); ok && fieldOf(f2) == "pChunker.eof" {
+					if k, isK := s2.Val.(*ssa.Const); isK && k.Value != nil && k.Value.ExactString() == "false" && hasOrigin(f2.X, func(o string) bool { return o == "field:pChunker.next" }) {
+						cleared = true
+					}
+				}
+			}
+		}
+		c.verdict(cleared, "pChunker.start:skip-clears-eof", st.Pos(), "the skipped worker's eof flag is cleared before it is unlinked",
+			"a worker is skipped with its eof flag left as it is: if it had stopped at the end of the stream, IndexFromFile ends the index at it and never collects the chunks of the worker behind it - the end of a file that ends in zeros is dropped without an error (about one run in ten with default options)")
+	})
+	if n == 0 {
+		c.info("pChunker.start:skip-clears-eof", fn.Pos(), "no worker is ever skipped")
+		c.ok("pChunker.start:skip-clears-eof", fn.Pos(), "workers are not skipped")
 	}
 }
